@@ -53,7 +53,8 @@ def st_case(draw, tier):
     lv = draw(st.sampled_from(["pp", "pp", "ip", "ea", "dip", "dea"]))
     rv = lv if draw(st.integers(0, 3)) != 0 else \
         draw(st.sampled_from(["pp", "ip", "ea"]))
-    kind = draw(st.sampled_from(["expec", "expec", "tm"]))
+    kind = draw(st.sampled_from(["expec", "expec", "tm", "tm_sum",
+                                 "expec_sum"]))
     sp1 = draw(st.sampled_from(CLASSES[lv][:2]))
     sp2 = draw(st.sampled_from(CLASSES[rv][:2]))
     order = draw(st.integers(0, 2))
@@ -66,6 +67,8 @@ def st_case(draw, tier):
         order = min(order, cap.get(size, 0))
         if n == 2:
             order = min(order, 1 if size <= 4 else 0)
+    elif kind == "expec_sum":
+        nc = na = 1
     else:
         if draw(st.booleans()):
             nc, na = None, None      # library default operator string
@@ -78,6 +81,8 @@ def st_case(draw, tier):
             "order": order, "nc": nc, "na": na,
             "subtract_gs": draw(st.booleans()),
             "lr": draw(st.sampled_from(["left", "right"])),
+            "adc": draw(st.integers(0, 2)),
+            "sum_order": draw(st.sampled_from([None, None, 0, 1, 2])),
             "size": draw(st.sampled_from([[2, 2], [3, 2], [2, 3]])),
             "mseed": draw(st.integers(0, 2**31))}
 
@@ -109,6 +114,8 @@ def run_case(case):
         raise ModelResample("no regular model")
     fk = pt.fk
     n = order
+    if kind in ("tm_sum", "expec_sum"):
+        return run_sums(case, r, prop, m, pt)
     if kind == "expec":
         sp1, sp2 = case["sp1"], case["sp2"]
         nc = na = case["nc"]
@@ -192,6 +199,130 @@ def run_case(case):
         r.nontrivial = ref != 0 and (order >= 1 or second or
                                      (nc, na) != (1, 1))
         r.cls("tm", variant, f"order={order}", f"op={nc},{na}")
+    return r
+
+
+def adc_spaces(variant, n):
+    sp = {"pp": "ph", "ip": "h", "ea": "p", "dip": "hh", "dea": "pp"}[variant]
+    out = {}
+    for k in range(n // 2 + 1):
+        out[sp] = n - k
+        sp = "p" + sp + "h"
+    return out
+
+
+def run_sums(case, r, prop, m, pt):
+    """trans_moment(adc) / expectation_value(adc) == sum of the admitted
+    space (block) / order contributions, computed explicitly"""
+    lv, rv, kind = case["lv"], case["rv"], case["kind"]
+    adc, o_req, sub = case["adc"], case["sum_order"], case["subtract_gs"]
+    fk = pt.fk
+    if o_req is not None and o_req > adc:
+        o_req = adc
+    nmax = adc if o_req is None else o_req
+    if pt.order < max(nmax, 1):
+        pt = RSPT(pt.h, max(nmax, 1))
+        pt.install_amplitudes()
+    if kind == "tm_sum":
+        lr = case["lr"]
+        variant = lv if lr == "left" else rv
+        nc, na = case["nc"], case["na"]
+        spaces = adc_spaces(variant, adc)
+        if any(sp not in CLASSES[variant][:2] for sp in spaces):
+            raise BadCase("third class")
+        r.sample = (f"Properties({lv},{rv}).trans_moment({adc}, {nc}, {na}, "
+                    f"order={o_req}, lr_isr='{lr}', subtract_gs={sub}) model "
+                    f"{case['size']}")
+        ok, ex = lib_call(r, "trans_moment", prop.trans_moment, adc, nc, na,
+                          o_req, lr, sub)
+        if not ok:
+            return r
+        if nc is None and na is None:
+            ms = list(spaces)[0]
+            nc, na = ms.count("p"), ms.count("h")
+        elif nc is None:
+            nc = 0
+        elif na is None:
+            na = 0
+        d = m.full_tensor("d", nc, na, "anti", 0)
+        isr = ISR(pt, variant, list(spaces), nmax)
+        psi0 = isr.psi0
+        ket = [operator_apply(fk, m.N, d, nc, na, psi0[k])
+               for k in range(nmax + 1)]
+        if sub and nc == na:
+            d0 = v_dot_series(fk, psi0, ket, nmax)
+            corr = v_scale_series(fk, psi0, d0, nmax)
+            ket = [fk.add(ket[k], corr[k], -1) for k in range(nmax + 1)]
+        ref = 0
+        for sp, mx in spaces.items():
+            if not isr.configs[sp]:
+                raise BadCase("model too small")
+            xt = isr.amplitude_tensor(m, sp, "X", case["mseed"] + 1)
+            for x_, st_ in zip(xt, isr.states[sp]):
+                ser = v_dot_series(fk, st_, ket, nmax)
+                for o in range(mx + 1):
+                    if o <= nmax and (o_req is None or o == o_req):
+                        ref = (ref + x_ * ser[o]) % P
+        val = int(evaluate(m, Expr(ex).expand().sympy, ()))
+        if val != ref:
+            r.fail("trans_moment", f"{r.sample}: derived {val}, explicit sum "
+                   f"{ref}")
+        r.nontrivial = ref != 0 and (adc >= 1)
+        r.cls("tm_sum", variant, f"adc={adc}", f"order={o_req}")
+        return r
+    # expectation value: blocks of the left variant paired with the right one
+    npart = 1
+    l_sp, r_sp = adc_spaces(lv, adc), adc_spaces(rv, adc)
+    if any(sp not in CLASSES[lv][:2] for sp in l_sp) or \
+            any(sp not in CLASSES[rv][:2] for sp in r_sp):
+        raise BadCase("third class")
+    r.sample = (f"Properties({lv},{rv}).expectation_value({adc}, {npart}, "
+                f"order={o_req}, subtract_gs={sub}) model {case['size']}")
+    ok, ex = lib_call(r, "expectation_value", prop.expectation_value, adc,
+                      npart, o_req, sub)
+    if not ok:
+        return r
+    l_isr = ISR(pt, lv, list(l_sp), nmax)
+    r_isr = l_isr if rv == lv else ISR(pt, rv, list(r_sp), nmax)
+    d = m.full_tensor("d", 1, 1, "anti", 0)
+    psi0 = l_isr.psi0
+    Dpsi0 = [operator_apply(fk, m.N, d, 1, 1, psi0[k])
+             for k in range(nmax + 1)]
+    d0 = v_dot_series(fk, psi0, Dpsi0, nmax)
+    lcls, rcls = list(l_sp), list(r_sp)
+    ref = 0
+    amps = {}
+    for (k1, s1), (k2, s2) in itertools.product(enumerate(lcls),
+                                                enumerate(rcls)):
+        mx = adc - (k1 + 1) - (k2 + 1) + 2
+        if mx < 0:
+            continue
+        if not l_isr.configs[s1] or not r_isr.configs[s2]:
+            raise BadCase("model too small")
+        if ("X", s1) not in amps:
+            amps[("X", s1)] = l_isr.amplitude_tensor(m, s1, "X",
+                                                     case["mseed"] + 1)
+        if ("Y", s2) not in amps:
+            amps[("Y", s2)] = r_isr.amplitude_tensor(m, s2, "Y",
+                                                     case["mseed"] + 2)
+        xt, yt = amps[("X", s1)], amps[("Y", s2)]
+        for y_, ket in zip(yt, r_isr.states[s2]):
+            Dk = [operator_apply(fk, m.N, d, 1, 1, ket[k])
+                  for k in range(nmax + 1)]
+            if sub:
+                corr = v_scale_series(fk, ket, d0, nmax)
+                Dk = [fk.add(Dk[k], corr[k], -1) for k in range(nmax + 1)]
+            for x_, bra in zip(xt, l_isr.states[s1]):
+                ser = v_dot_series(fk, bra, Dk, nmax)
+                for o in range(min(mx, nmax) + 1):
+                    if o_req is None or o == o_req:
+                        ref = (ref + x_ * y_ % P * ser[o]) % P
+    val = int(evaluate(m, Expr(ex).expand().sympy, ()))
+    if val != ref:
+        r.fail("expectation_value", f"{r.sample}: derived {val}, explicit "
+               f"sum {ref}")
+    r.nontrivial = ref != 0 and adc >= 1
+    r.cls("expec_sum", f"{lv}/{rv}", f"adc={adc}", f"order={o_req}")
     return r
 
 
